@@ -225,7 +225,8 @@ def static2_rel(c, e, g):
 # ------------------------------------------------------------------ late / syntax (harness-side specification)
 
 LATE = ['select MAX(a2) + 1', 'select a1, "x" + MAX(a2)', 'select MIN(a2), a1 + MAX(a2)', 'select COUNT(*) + 1', 'select distinct a1, COUNT(*) group by a1',
-        'select distinct count a1, MAX(a2) group by a1', 'select SUM(a2) + SUM(a2)']
+        'select distinct count a1, MAX(a2) group by a1', 'select SUM(a2) + SUM(a2)', 'select [MAX(a2)]', 'select (MAX(a2), 1)', 'select MAX(a2), [MIN(a2)]']
+LATE_PORT = {'py': ['select str(MAX(a2))', 'select len([MIN(a2)])'], 'js': ['select typeof MAX(a2)', 'select Buffer.byteLength(MAX(a2))', 'select `${MAX(a2)}`']}
 # (text, advice kinds, {port: (class, log)} where it is not the default ('S', ['VA', 'H'])): rbql-py parses the SELECT list with ast.parse
 # for the output header BEFORE set_header (the syntax error of a broken select list is raised there), rbql-js scans it by hand (a parsing
 # error for unbalanced brackets); everything else is rejected when the generated loop is compiled, after set_header
@@ -240,7 +241,7 @@ def late_cases(ctx):
     r = ctx.rng
     out = []
     for port in ('py', 'js'):
-        for text in LATE:
+        for text in LATE + LATE_PORT[port]:
             for _ in range(3):
                 A = [[r.choice(['k', 'm']), str(r.randint(1, 9)), r.choice(['p', 'q'])] for _ in range(r.randint(1, 5))]
                 q = text
@@ -385,17 +386,21 @@ def cli_cases(ctx):
         out.append(dict(base, q='select a.zz', cls='P', with_headers=True))
         out.append(dict(base, q='select a1', cls='IO', delim='"', policy='quoted'))
         out.append(dict(base, q='select a1 where a2 = "1"', cls='P', with_output=False))
+        # usage mistakes of the command line itself: refused with an Error [...] line (the label is the port's own: generic / unexpected)
+        out.append(dict(base, q='select a1', cls='*', omit_delim=True))
+        out.append(dict(base, q='select a1', cls='*', omit_delim=True, omit_policy=True))
     return out
 
 
 def cli_expected(c):
-    return {'label': LABEL[c['port']][c['cls']]}
+    return {'label': '*' if c['cls'] == '*' else LABEL[c['port']][c['cls']]}
 
 
 def cli_rel(c, e, g):
     if not isinstance(g, dict) or 'rc' not in g:
         return False
-    return g['rc'] not in (0, None) and g['stdout_len'] == 0 and g['label'] == e['label'] and g['out_size'] in (None, 0)
+    label_ok = (g['label'] is not None) if e['label'] == '*' else (g['label'] == e['label'])
+    return g['rc'] not in (0, None) and g['stdout_len'] == 0 and label_ok and g['out_size'] in (None, 0)
 
 
 # ------------------------------------------------------------------ run / replay
